@@ -169,7 +169,7 @@ CHECKS["C05"] = {
 }
 
 CHECKS["C12"] = {
-    "explanation": "Symbolic execution of gluon's message parsing kernels on arbitrary symbolic byte strings of bounded length: rfc822 header parser (progress and offset ordering per step, so termination for any length follows by induction on the offset), Split, the multipart boundary scanner and Section tree (parts inside parents, ordered, disjoint), rfc5322 address/date parsers (no panic, termination at end of input). Templates: the boundary scanner on three delimiter candidates and a close delimiter with arbitrary bytes around each; nested multiparts / embedded messages reusing the parent's boundary (every part inside its parent to depth 3); the parenthesised-list writer (imap/params.go) on arbitrary string values against a lenient IMAP list tokenizer.",
+    "explanation": "Symbolic execution of gluon's message parsing kernels on arbitrary symbolic byte strings of bounded length: rfc822 header parser (progress and offset ordering per step, so termination for any length follows by induction on the offset), Split, the multipart boundary scanner and Section tree (parts inside parents, ordered, disjoint), rfc5322 address/date parsers (no panic, termination at end of input). Templates: the boundary scanner on three delimiter candidates and a close delimiter with arbitrary bytes around each; nested multiparts / embedded messages reusing the parent's boundary (every part inside its parent to depth 3); the parenthesised-list writer (imap/params.go) on arbitrary string values against a lenient IMAP list tokenizer. VerifC12Structure (imap.NewParsedMessage = Structure + Envelope): a text/plain message with an arbitrary body (exact BODY text: type, parameters, size, line count), a multipart with two text parts (exact BODY text), and arbitrary bytes in the Subject / From / Content-Type / Content-Disposition value (no panic, ENVELOPE / BODY / BODYSTRUCTURE well-formed lists).",
     "harnesses": [
         {"name": "headerparser", "pkg": "rfc822", "pkgname": "rfc822", "entry": "VerifHeaderParser", "files": ["zz_verif_rfc822.go"],
          "params": {"quick": grid(n=[0, 1, 2, 3, 4, 5]), "thorough": grid(n=list(range(0, 9)))}, "cover": []},
@@ -179,6 +179,9 @@ CHECKS["C12"] = {
          "params": {"quick": grid(g=[0, 1]), "thorough": grid(g=[2, 3])}, "cover": ["nested-child"]},
         {"name": "sections", "pkg": "rfc822", "pkgname": "rfc822", "entry": "VerifSections", "files": ["zz_verif_rfc822.go"],
          "params": {"quick": grid(n=[0, 3, 5, 6]), "thorough": grid(n=list(range(0, 9)))}, "cover": []},
+        {"name": "structure", "pkg": "imap", "pkgname": "imap", "entry": "VerifC12Structure", "files": ["zz_verif_c12.go"],
+         "params": {"quick": grid(tpl=[0], g=[0, 1, 2, 3]) + grid(tpl=[1], g=[0, 1]) + grid(tpl=[2], g=[0, 1, 2]), "thorough": grid(tpl=[0], g=[4, 5, 6]) + grid(tpl=[1], g=[2, 3]) + grid(tpl=[2], g=[3])},
+         "cover": ["structure-done"]},
         {"name": "paramlist", "pkg": "imap", "pkgname": "imap", "entry": "VerifC12ParamString", "files": ["zz_verif_c12.go"],
          "params": {"quick": grid(n=[0, 1, 2], n2=[1]), "thorough": grid(n=[0, 1, 2], n2=[0, 1, 2]) + grid(n=[3], n2=[0])}, "cover": []},
         {"name": "nesting", "pkg": "rfc5322", "pkgname": "rfc5322", "entry": "VerifC12Nesting", "files": ["zz_verif_c12.go"],
